@@ -51,12 +51,18 @@ func (w Writer) Create(
 // Delete removes a role from the database. It will fail if the role is builtin
 // or if any users are assigned to the role.
 func (w Writer) Delete(ctx context.Context, key Key) error {
-	return w.table.NewDelete().Where(gorp.MatchKeys[Key, Role](key)).Guard(func(_ gorp.Context, r Role) error {
+	if err := w.table.NewDelete().Where(gorp.MatchKeys[Key, Role](key)).Guard(func(_ gorp.Context, r Role) error {
 		if r.Internal && !w.allowInternal {
 			return errors.Wrap(validate.ErrValidation, "cannot delete builtin role")
 		}
 		return nil
-	}).Exec(ctx, w.tx)
+	}).Exec(ctx, w.tx); err != nil {
+		return err
+	}
+	// Remove the role from the ontology together with its relationships: access checks
+	// resolve a subject's policies by walking subject -> role -> policy there, so a role
+	// that stays in the ontology keeps granting its policies after it was deleted.
+	return w.otg.DeleteResource(ctx, OntologyID(key))
 }
 
 // AssignRole assigns a role to a subject (typically a user) by creating an ontology
